@@ -55,7 +55,7 @@ pub struct Model {
     /// (inside a drop_range; Destroy/RemoveWeak verdict on a multi-version key)
     pub taint: BTreeMap<Key, Vec<Taint>>,
     /// rewrites by a compaction filter: (key, seqno of the rewritten write) -> (new kind, from version seqno)
-    pub rewrites: BTreeMap<(Key, SeqNo), (Kind, SeqNo)>,
+    pub rewrites: BTreeMap<(Key, SeqNo), Vec<(Kind, SeqNo)>>,
     /// every value ever written (or produced by a filter replacement) per key
     pub ever: BTreeMap<Key, BTreeSet<Vec<u8>>>,
 }
@@ -93,9 +93,19 @@ impl Model {
         })
     }
 
-    fn effective_kind(&self, key: &[u8], w: &Write, snap: SeqNo) -> Kind {
-        if let Some((k, from)) = self.rewrites.get(&(key.to_vec(), w.seqno)) {
-            if *from < snap {
+    pub fn rewrite(&mut self, key: &[u8], seqno: SeqNo, kind: Kind, from: SeqNo) {
+        if let Kind::Val(v) = &kind {
+            self.ever.entry(key.to_vec()).or_default().insert(v.clone());
+        }
+        self.rewrites
+            .entry((key.to_vec(), seqno))
+            .or_default()
+            .push((kind, from));
+    }
+
+    pub fn effective_kind(&self, key: &[u8], w: &Write, snap: SeqNo) -> Kind {
+        if let Some(chain) = self.rewrites.get(&(key.to_vec(), w.seqno)) {
+            if let Some((k, _)) = chain.iter().rev().find(|(_, from)| *from < snap) {
                 return k.clone();
             }
         }
@@ -105,11 +115,13 @@ impl Model {
     pub fn read(&self, key: &[u8], snap: SeqNo) -> Expect {
         let w = self.deciding(key, snap);
         if let Some(ts) = self.taint.get(key) {
-            // the newest taint event this snapshot can see decides
-            if let Some(t) = ts.iter().rev().find(|t| t.from.map_or(true, |f| f < snap)) {
-                if w.map_or(true, |w| w.seqno < t.boundary) {
-                    return Expect::Loose;
-                }
+            // any taint event this snapshot can see whose boundary lies above the deciding write
+            if ts
+                .iter()
+                .filter(|t| t.from.map_or(true, |f| f < snap))
+                .any(|t| w.map_or(true, |w| w.seqno < t.boundary))
+            {
+                return Expect::Loose;
             }
         }
         match w {
@@ -143,6 +155,14 @@ impl Model {
         self.taint.entry(key.to_vec()).or_default().push(Taint {
             from: Some(version_seqno),
             boundary: version_seqno,
+        });
+    }
+
+    /// like `taint_key` but only history older than `boundary` becomes unreliable
+    pub fn taint_key_bounded(&mut self, key: &[u8], version_seqno: SeqNo, boundary: SeqNo) {
+        self.taint.entry(key.to_vec()).or_default().push(Taint {
+            from: Some(version_seqno),
+            boundary,
         });
     }
 
